@@ -141,6 +141,12 @@ func monitorVM(line string, rect image.Rectangle, cs []Call) (fails []Failure) {
 		}
 	}()
 	for i, c := range cs {
+		if c.Name == "rast" {
+			rect = c.Rect
+			rec.Fresh()
+			z.SetRasterizer(rec, rect)
+			continue
+		}
 		if !c.IsDest() {
 			continue
 		}
@@ -253,6 +259,13 @@ func monitorGeometry(line string, rect image.Rectangle, cs []Call) (fails []Fail
 		return true
 	}
 	for i, c := range cs {
+		if c.Name == "rast" {
+			rect = c.Rect
+			rec.Fresh()
+			z.SetRasterizer(rec, rect)
+			W, H = float64(rect.Dx()), float64(rect.Dy())
+			continue
+		}
 		if !c.IsDest() {
 			continue
 		}
@@ -437,6 +450,13 @@ func monitorArcs(line string, rect image.Rectangle, cs []Call) (fails []Failure)
 	var vb ivg.ViewBox
 	W, H := float64(rect.Dx()), float64(rect.Dy())
 	for i, c := range cs {
+		if c.Name == "rast" {
+			rect = c.Rect
+			rec.Fresh()
+			z.SetRasterizer(rec, rect)
+			W, H = float64(rect.Dx()), float64(rect.Dy())
+			continue
+		}
 		if !c.IsDest() {
 			continue
 		}
@@ -557,6 +577,12 @@ func monitorGradient(line string, rect image.Rectangle, smp []image.Point, cs []
 	}
 	var pending []expect
 	for i, c := range cs {
+		if c.Name == "rast" {
+			rect = c.Rect
+			rec.Fresh()
+			z.SetRasterizer(rec, rect)
+			continue
+		}
 		if !c.IsDest() {
 			continue
 		}
